@@ -900,6 +900,14 @@ class Server(Node):
         if not self.check_app_constraints(app):
             return False
 
+        # Eviction and restore put the app directly on the server: affinity
+        # limits must hold on each level, all the way to the top.
+        node = self.parent
+        while node is not None:
+            if not node.check_app_affinity_limit(app):
+                return False
+            node = node.parent
+
         prev_capacity = self.free_capacity.copy()
         self.free_capacity -= app.demand
         self.apps[app.name] = app
@@ -1730,8 +1738,6 @@ class Cell(Bucket):
                                             evicted_app.placement_expiry)
                     evicted_app_server.remove(evicted_app.name)
 
-                    # TODO: we need to check affinity limit constraints on
-                    #       each level, all the way to the top.
                     if evicted_app_server.put(app):
                         break
 
